@@ -27,7 +27,11 @@ def simple_rule(rng, name):
     elif shape == "forget":
         # a condition read through a method; the change is announced by the text of the call
         cond = bin_("<", atom(meth(var(root("F")), "GetI")), atom(cint(k + 2)))
+        # (the call statement itself is remembered like any other call: it has to be forgotten to run again; whether
+        # `Changed("F.I")` happens to do that — "F.Inc()" contains the text "F.I" — depends on whether some rule of the
+        # knowledge base mentions the variable F.I, so the rule announces it explicitly)
         acts = [assign("+=", path(field), atom(cint(1))), stmt(meth(var(root("F")), "Inc")),
+                stmt(call("Forget", atom(cstr("F.Inc()")))),
                 stmt(call(rng.choice(["Forget", "Changed"]), atom(cstr("F.GetI()")))),
                 stmt(call("Changed", atom(cstr("F.I"))))]
     elif shape == "rhs":
